@@ -73,7 +73,7 @@ ASSUMPTIONS = [
 ]
 MIN_EVALS = {"memo_equals_fresh": 10000, "memo_unchanged": 3000, "hashfile_equals_md5": 2000,
              "hashfile_equals_fresh": 2000, "contour_equals_fresh": 3000,
-             "feat_contour_equals_model": 300, "scalar_array_equals_fresh": 10000,
+             "feat_contour_equals_model": 300, "scalar_array_equals_fresh": 3000,
              "feat_read_equals_model": 2000, "ds_call_repeatable": 300}
 
 
